@@ -121,11 +121,19 @@ func (s *Sim) Scenario() *ScenarioOut {
 			p := evmgen.Program{Name: "balancereader", Init: evmgen.BalanceReaderInit(), NeedsArg: true}
 			s.PendingProg[string(p.Init)] = p
 			out.deliver = append(out.deliver, s.specN(nb, a, ctrlertypes.TRX_CONTRACT, rtypes.ZeroAddress(), nil, &ctrlertypes.TrxPayloadContract{Data: p.Init}).Build())
+			s.ForceScenario = 4 // come back in the next block, when the reader exists
 			return out
 		}
 		out.deliver = append(out.deliver, s.specN(nb, a, ctrlertypes.TRX_CONTRACT, reader.Addr, nil, &ctrlertypes.TrxPayloadContract{Data: evmgen.Word(b.Addr)}).Build())
 		out.deliver = append(out.deliver, s.specN(nb, b, ctrlertypes.TRX_TRANSFER, c.Addr, uint256.NewInt(uint64(r.Range(1, 1000))), nil).Build())
-		out.deliver = append(out.deliver, s.specN(nb, a, ctrlertypes.TRX_CONTRACT, reader.Addr, nil, &ctrlertypes.TrxPayloadContract{Data: evmgen.Word(c.Addr)}).Build())
+		if r.Bool() {
+			out.deliver = append(out.deliver, s.specN(nb, a, ctrlertypes.TRX_CONTRACT, reader.Addr, nil, &ctrlertypes.TrxPayloadContract{Data: evmgen.Word(c.Addr)}).Build())
+		} else {
+			// … or a contract transaction that FAILS inside the EVM (invalid opcode as init code): whatever the block's
+			// earlier EVM transactions touched and native transactions changed since must survive the revert
+			out.deliver = append(out.deliver, s.specN(nb, a, ctrlertypes.TRX_CONTRACT, rtypes.ZeroAddress(), nil, &ctrlertypes.TrxPayloadContract{Data: []byte{0xfe}}).Build())
+			out.deliver = append(out.deliver, s.specN(nb, c, ctrlertypes.TRX_TRANSFER, b.Addr, uint256.NewInt(uint64(r.Range(1, 1000))), nil).Build())
+		}
 		out.replay = []int{1}
 	case 4: // proposal life cycle: a validator proposes, every validator votes option 0; queried by hash later
 		v := s.someValidator()
